@@ -94,13 +94,16 @@ class ReachingDefs:
         self.IN[cfg.entry] = {}
         for d in self.entry_defs:
             self.IN[cfg.entry].setdefault(d.var, set()).add(d.idx)
-        work = list(cfg.blocks)
+        live = cfg.reachable(cfg.entry)      # blocks no path enters (code behind a return, the other cases of a constant switch) define nothing
+        work = [b for b in cfg.blocks if b in live]
         while work:
             b = work.pop()
             blk = cfg.blocks[b]
             if b != cfg.entry:
                 inn = {}
                 for p in blk.preds:
+                    if p not in live:
+                        continue
                     for v, s in self.OUT[p].items():
                         inn.setdefault(v, set()).update(s)
                 self.IN[b] = inn
